@@ -236,6 +236,53 @@ def check_tree(t, acc, Kl, do_mc=True):
                     acc.violation('modelcheck-wrong-exception-type', case, 'TypeError or a set', res[1:])
 
 
+_PARSERS = {}
+
+
+def shared_parser(name):
+    if name not in _PARSERS:
+        _PARSERS[name] = lib.LANGS[name].Parser()
+    return _PARSERS[name]
+
+
+def text_modelcheck(t, acc, Kl):
+    """The formula as TEXT (CTL* notation) into every modelcheck: a set only for a state formula of the
+    called logic; otherwise TypeError (or the parser's own positioned error when the text is not even in
+    the logic's grammar)."""
+    if not members.ctls(t):
+        return
+    r = call(lambda: str(lib.build(t, lib.CTLS)))
+    if r[0] != 'ok':
+        return
+    text = r[1]
+    for Cname in ('CTL', 'LTL', 'CTLS'):
+        C = lib.LANGS[Cname]
+        # what this logic's own parser makes of the text decides the expectation (the CTL grammar
+        # reads `(A(true) U p)` as A[true U p], CTL* as (A true) U p)
+        pr = call(shared_parser(Cname), text)
+        if pr[0] == 'ok':
+            rt = call(lib.read, pr[1])
+            st = rt[0] == 'ok' and members.STATE[Cname](rt[1])
+            parsed = spaces.fstr(rt[1]) if rt[0] == 'ok' else None
+        else:
+            st = False
+            parsed = None
+        res = call(C.modelcheck, Kl, text, parser=shared_parser(Cname))
+        acc.ev(1, 1)
+        case = {'tree': spaces.to_jsonable(t), 'tree_str': spaces.fstr(t), 'checker': Cname, 'text': text,
+                'parsed_as': parsed}
+        if res[0] == 'ok':
+            if not st:
+                acc.violation('modelcheck-accepts-non-state-formula-text', case, 'TypeError',
+                              repr(res[1])[:80])
+            elif not isinstance(res[1], set):
+                acc.violation('modelcheck-returns-non-set', case, 'set', type(res[1]).__name__)
+        elif res[1] not in ('TypeError', 'UnexpectedToken', 'UnexpectedCharacters'):
+            acc.violation('modelcheck-wrong-exception-type', case, 'TypeError / ParserError or a set', res[1:])
+        elif st:
+            acc.violation('modelcheck-rejects-state-formula-text', case, 'a set', res[1:])
+
+
 def fixed_K():
     from pyModelChecking import Kripke
     return Kripke(S=[0, 1], R=[(0, 1), (1, 1), (1, 0)], L={0: {'p'}, 1: set()})
@@ -250,6 +297,7 @@ def run_shard(shard, tier, seed, acc):
                 acc.capped()
                 return
             check_tree(t, acc, Kl)
+            text_modelcheck(t, acc, Kl)
         acc.sample({'tree': spaces.fstr(trees(2)[shard[1]]), 'languages': list(LANGS),
                     'ops': ['construct x3 modes', 'cast_to x12', 'modelcheck x3']})
         return
@@ -298,6 +346,7 @@ def replay(art):
     else:
         t = spaces.from_jsonable(c['tree'])
         check_tree(t, acc, fixed_K())
+        text_modelcheck(t, acc, fixed_K())
     kinds = [v['kind'] for v in acc.d['violations']]
     return {'violates': art['kind'] in kinds or (acc.d['nviol'] > 0 and art['kind'] not in kinds
                                                  and acc.d['nviol'] > 5),
